@@ -2,7 +2,7 @@
 """store a confirmed seeded change: tools/store_seed.py <PROP> <k> [<patch-override>]"""
 import json, os, shutil, sys
 prop, k = sys.argv[1], sys.argv[2]
-src = "/tmp/seed/out_%s/%s" % (prop, k)
+src = os.environ.get("SEEDSRC") or "/tmp/seed/out_%s/%s" % (prop, k)
 dst = "/verif/seeded/%s_%s" % (prop, k)
 os.makedirs(dst, exist_ok=True)
 patch = sys.argv[3] if len(sys.argv) > 3 else os.path.join(src, "patch.diff")
